@@ -52,6 +52,12 @@ pub trait Alg: Sync + Send + 'static {
         true
     }
     fn holds(p: &Pred, o: &Self::Obs) -> bool;
+    /// The same logical element as `item(e)` but carrying a pending modifier, as an item read back from
+    /// another tree by `ask(i, i)` after a range modification would (the tree never pushes from a
+    /// single-element node, so the tag must never be read).  None: the item type has no such form.
+    fn dirty_item(_e: &Self::E) -> Option<Self::T> {
+        None
+    }
     /// canonical bytes of one node of the implementation
     fn encode(t: &Self::T, out: &mut Vec<u8>);
     fn encode_elem(e: &Self::E, out: &mut Vec<u8>);
@@ -144,6 +150,9 @@ impl Alg for AlgW {
     }
     fn item(e: &u8) -> W {
         W { len: 1, bits: *e as u64, tag: ID }
+    }
+    fn dirty_item(e: &u8) -> Option<W> {
+        Some(W { len: 1, bits: *e as u64, tag: 0b01 })
     }
     fn mods() -> Vec<u8> {
         vec![0b10, 0b01, 0b00, 0b11]
@@ -257,6 +266,9 @@ impl Alg for AlgA3 {
     fn item(e: &u8) -> A3 {
         A3 { vals: vec![*e], tag: (1, 0) }
     }
+    fn dirty_item(e: &u8) -> Option<A3> {
+        Some(A3 { vals: vec![*e], tag: (1, 1) })
+    }
     fn mods() -> Vec<(u8, u8)> {
         vec![(1, 1), (0, 0)]
     }
@@ -341,6 +353,9 @@ impl Alg for AlgFr {
     }
     fn item(e: &(u32, Vec<u8>)) -> Fr {
         Fr { elems: vec![e.clone()], pend: vec![] }
+    }
+    fn dirty_item(e: &(u32, Vec<u8>)) -> Option<Fr> {
+        Some(Fr { elems: vec![e.clone()], pend: vec![2] })
     }
     fn mods() -> Vec<u8> {
         vec![1, 2]
@@ -464,6 +479,11 @@ impl Alg for AlgSumAddZ4 {
     fn item(e: &u8) -> SumAdd<Z4> {
         SumAdd::new(Z4(*e))
     }
+    fn dirty_item(e: &u8) -> Option<SumAdd<Z4>> {
+        let mut t = SumAdd::new(Z4(*e));
+        t.md = Z4(1);
+        Some(t)
+    }
     fn mods() -> Vec<Z4> {
         vec![Z4(1), Z4(2)]
     }
@@ -562,6 +582,11 @@ macro_rules! minmax_add_alg {
             fn item(e: &i64) -> $item<i64> {
                 $item::new(*e)
             }
+            fn dirty_item(e: &i64) -> Option<$item<i64>> {
+                let mut t = $item::new(*e);
+                t.md = 3;
+                Some(t)
+            }
             fn mods() -> Vec<i64> {
                 vec![1, -1, 2]
             }
@@ -612,6 +637,11 @@ impl Alg for AlgSumAdd {
     }
     fn item(e: &i64) -> SumAdd<i64> {
         SumAdd::new(*e)
+    }
+    fn dirty_item(e: &i64) -> Option<SumAdd<i64>> {
+        let mut t = SumAdd::new(*e);
+        t.md = 3;
+        Some(t)
     }
     fn mods() -> Vec<i64> {
         vec![1, -1, 2]
@@ -678,6 +708,13 @@ where
     }
     fn item(e: &A::E) -> Self::T {
         Combinator(A::item(e), B::item(e))
+    }
+    fn dirty_item(e: &A::E) -> Option<Self::T> {
+        let (a, b) = (A::dirty_item(e), B::dirty_item(e));
+        if a.is_none() && b.is_none() {
+            return None;
+        }
+        Some(Combinator(a.unwrap_or_else(|| A::item(e)), b.unwrap_or_else(|| B::item(e))))
     }
     fn mods() -> Vec<A::M> {
         A::mods()
